@@ -186,6 +186,24 @@ impl<T: Iterator<Item = char>> Input for EofSafeInput<T> {
         self.0.peek_nth(n)
     }
 
+    /// Skips to the end of the line and returns the number of characters skipped.
+    ///
+    /// The parser adds the result to its character offset and column; the generic
+    /// implementation returns the number of UTF-8 bytes instead, which shifts every later
+    /// location after a comment containing multi-byte characters.
+    fn skip_while_non_breakz(&mut self) -> usize {
+        let mut count = 0;
+        loop {
+            let c = self.look_ch();
+            if c == '\0' || c == '\n' || c == '\r' {
+                break;
+            }
+            count += 1;
+            self.skip();
+        }
+        count
+    }
+
     fn fetch_while_is_yaml_non_space(&mut self, out: &mut String) -> usize {
         let mut n_bytes = 0;
         loop {
